@@ -169,11 +169,21 @@ pub mod csv {
         dir_path.join(fname_only)
     }
 
-    fn open_rates_csv_file_write(
+    // The rates are written to a temporary file, which only replaces the real
+    // cache file (atomically, via rename) once it is complete and synced. An
+    // interrupted write can therefore never leave a truncated cache file behind
+    // (a row cut inside its rate would otherwise be read back as a valid, but
+    // wrong, rate).
+    fn rates_csv_tmp_file_path(dir_path: &std::path::Path, year: u32) -> PathBuf {
+        let fname_only = format!("rates-{}.csv.tmp", year);
+        dir_path.join(fname_only)
+    }
+
+    fn open_rates_csv_tmp_file_write(
         dir_path: &std::path::Path,
         year: u32,
     ) -> Result<File, SError> {
-        let file_path = rates_csv_file_path(dir_path, year);
+        let file_path = rates_csv_tmp_file_path(dir_path, year);
         crate::util::os::mk_writable_dir(dir_path).map_err(|e| e.to_string())?;
         File::create(file_path).map_err(|e| e.to_string())
     }
@@ -207,7 +217,7 @@ pub mod csv {
                     "<no path ???>"
                 }
             );
-            let file = open_rates_csv_file_write(&self.dir_path, year)?;
+            let file = open_rates_csv_tmp_file_write(&self.dir_path, year)?;
 
             // CSV file of date,exchange_rate
 
@@ -220,7 +230,17 @@ pub mod csv {
                     ])
                     .map_err(|e| e.to_string())?;
             }
-            let r = csv_w.flush().map_err(|e| e.to_string());
+            let r = csv_w
+                .into_inner()
+                .map_err(|e| e.to_string())
+                .and_then(|file| file.sync_all().map_err(|e| e.to_string()))
+                .and_then(|_| {
+                    std::fs::rename(
+                        rates_csv_tmp_file_path(&self.dir_path, year),
+                        rates_csv_file_path(&self.dir_path, year),
+                    )
+                    .map_err(|e| e.to_string())
+                });
             if r.is_ok() {
                 trace!("CsvRatesCache::write_rates flushed ok");
             } else {
